@@ -9,7 +9,8 @@ Local Open Scope Z_scope.
 
 (** append: any number of lists; the last argument is shared as the tail, whatever it is *)
 Definition n_append := [97;112;112;101;110;100].
-Definition n_lsts : str := s [108;115;116;115].
+(* the parameter names as they are in base.sld now (so that a renaming re-proves) *)
+Definition p_append_r : str := Eval vm_compute in rst n_append.
 
 
 Lemma is_nil_snoc : forall (l : list value) t, is_nil (vlist (l ++ [t])) = false.
@@ -25,8 +26,8 @@ Proof.
   induction ls as [|l1 ls IHls]; intros t st lf HL.
   - (* one argument: returned as it is *)
     open_lib HL. cbn [map List.app concat vapp_tail].
-    start_proc st lf [(n_lsts, VPair t VNil)].
-    pose proof (null_spec (VPair t VNil)) as Hn1. call_lib Hn1 (enter st lf [(n_lsts, VPair t VNil)]) lf.
+    start_proc st lf [(p_append_r, VPair t VNil)].
+    pose proof (null_spec (VPair t VNil)) as Hn1. call_lib Hn1 (enter st lf [(p_append_r, VPair t VNil)]) lf.
     match goal with K : keeps _ ?s2 |- _ =>
       pose proof (null_spec VNil) as Hn2; call_lib Hn2 s2 lf end.
     eexists. split.
@@ -42,8 +43,8 @@ Proof.
       set (R := vlist (map vlist ls ++ [t])).
       assert (NR : is_nil R = false) by apply is_nil_snoc.
       assert (LR : is_list_value R = true) by apply is_list_snoc.
-      start_proc st lf [(n_lsts, VPair VNil R)].
-      pose proof (null_spec (VPair VNil R)) as Hn1. call_lib Hn1 (enter st lf [(n_lsts, VPair VNil R)]) lf.
+      start_proc st lf [(p_append_r, VPair VNil R)].
+      pose proof (null_spec (VPair VNil R)) as Hn1. call_lib Hn1 (enter st lf [(p_append_r, VPair VNil R)]) lf.
       match goal with K : keeps _ ?s2 |- _ =>
         pose proof (null_spec R) as Hn2; call_lib Hn2 s2 lf end.
       match goal with K : keeps _ ?s3, Hn : app _ _ [R] _ ?s3 |- _ =>
@@ -70,9 +71,9 @@ Proof.
       set (R := vlist (map vlist ls ++ [t])).
       assert (NR : is_nil R = false) by apply is_nil_snoc.
       assert (LR : is_list_value R = true) by apply is_list_snoc.
-      start_proc st lf [(n_lsts, VPair (VPair x (vlist l1)) R)].
+      start_proc st lf [(p_append_r, VPair (VPair x (vlist l1)) R)].
       pose proof (null_spec (VPair (VPair x (vlist l1)) R)) as Hn1.
-      call_lib Hn1 (enter st lf [(n_lsts, VPair (VPair x (vlist l1)) R)]) lf.
+      call_lib Hn1 (enter st lf [(p_append_r, VPair (VPair x (vlist l1)) R)]) lf.
       match goal with K : keeps _ ?s2 |- _ =>
         pose proof (null_spec R) as Hn2; call_lib Hn2 s2 lf end.
       match goal with K : keeps _ ?s3, Hn : app _ _ [R] _ ?s3 |- _ =>
@@ -115,8 +116,8 @@ Theorem append_none : lib_call n_append [] VNil.
 Proof.
   eapply lib_call_intro; [vm_compute; reflexivity|].
   intros st lf HL. open_lib HL.
-  start_proc st lf [(n_lsts, VNil)].
-  pose proof (null_spec VNil) as Hn1. call_lib Hn1 (enter st lf [(n_lsts, VNil)]) lf.
+  start_proc st lf [(p_append_r, VNil)].
+  pose proof (null_spec VNil) as Hn1. call_lib Hn1 (enter st lf [(p_append_r, VNil)]) lf.
   eexists. split.
   - enter_tac. eapply evbody_last. eapply ev_if_true; [ev_simple|reflexivity|]. thunk_tac. ev_simple.
   - keeps_tac.
